@@ -20,9 +20,9 @@ def P(c=0, b="", as_="", id="", at="", pid=0, ab="", bd=False, lo=0, hi=0, lb=""
     return {"c": c, "b": b, "as": as_, "id": id, "at": at, "pid": pid, "ab": ab, "bd": bd, "lo": lo, "hi": hi, "lb": lb, "ub": ub}
 
 
-def O(cell=None, b="", as_="", ty="", id="", at="", pid=0, ab="", bd=False, lo=0, hi=0):
+def O(cell=None, b="", as_="", ty="", id="", at="", pid=0, ab="", bd=False, lo=0, hi=0, lb="", ub=""):
     return {"ck": cell["k"] if cell else "", "cv": cell["v"] if cell else 0, "b": b, "as": as_, "ty": ty, "id": id,
-            "at": at, "pid": pid, "ab": ab, "bd": bd, "lo": lo, "hi": hi}
+            "at": at, "pid": pid, "ab": ab, "bd": bd, "lo": lo, "hi": hi, "lb": lb, "ub": ub}
 
 
 def clause(s, p, o, opt=False):
@@ -79,7 +79,7 @@ def render_clause(c, alt=False):
     elif o["b"]:
         out.append(o["b"])
     elif o["bd"]:
-        out.append(_bound(o["pid"], o["lo"], o["hi"], alt))
+        out.append(_bound(o["pid"], o["lo"], o["hi"], alt, o.get("lb", ""), o.get("ub", "")))
     else:
         out.append('"%s"@[%s]' % (bqlu.STR[o["pid"] - 1], o["ab"]))
     if o["as"]:
